@@ -35,6 +35,31 @@ CHECKS = {
    "Every tick within the radius of every anchor (1601, 1970, tick maximum, every power of two) with every sub-tick nanosecond offset is set, read, set again and compared for drift < 100 ns, idempotence, monotonicity and saturation; the same through save + reopen for the anchor sets; a regular lattice covers the range in between.",
    "Trusted: i128 nanosecond arithmetic in c18.rs. x86-64 Linux SystemTime only. The property's 'random times' are replaced by the lattice (piecewise-linear argument in DESIGN.md).",
    "DESIGN.md §4 C18"),
+ "C01": (E1, "model_checking",
+   "explicit-state BFS over operation sequences on the real Package (re-execution, canonical state key); every distinct state closed 3 ways, reopened, re-saved",
+   "All sequences of table/row/stream/summary/code-page operations up to the completed depth are executed on the real library; every distinct state is closed by flush (bytes copied while the package is alive = crash right after the flush), by into_inner and by drop; each result is reopened and compared with the full API observation before closing (\"\" == null), then saved and reopened again. Complete up to max_depth_completed over the stated alphabet.",
+   "Trusted: snapshot/compare code, the state-key argument of DESIGN.md §3.1 (audited at run time by merge audits). Values outside the alphabet and deeper sequences are not covered.",
+   "DESIGN.md §4 C01"),
+ "C03": (E1, "model_checking",
+   "explicit-state BFS over DML sequences on the real Package with a relational reference model stepped in lock-step; select battery in every state",
+   "After every transition of every sequence up to the completed depth the complete observation (all tables including the catalog, streams, summary) is compared with a plain relational model, and every distinct state runs a battery of selects (conditions x projections; order, reported length, Row indexing). Merge audits and a no-dedup enumeration check the state key.",
+   "Trusted: the relational model in ops.rs, the reference expression evaluator, the state-key argument. 'Randomly beyond the depth' is sampling and not done.",
+   "DESIGN.md §4 C03"),
+ "C04": (E1, "model_checking",
+   "explicit-state BFS; every reachable state x invalid-call menu; before/after and save+reopen comparison for every call that returns an error",
+   "Every state of the DML exploration is subjected to each of 65 invalid calls (all documented failure kinds, including late create-table failures and batches whose last row is bad); for every call that returns Err the full observation before and after, and after save + reopen, must be identical. Rejected alphabet operations are checked the same way.",
+   "Trusted: snapshot/compare code. The menu is finite; failure kinds not in it are not covered.",
+   "DESIGN.md §4 C04"),
+ "C05": (E1, "model_checking",
+   "explicit-state BFS; invariant monitor (unique ascending keys, valid cells) in every reachable state, live and after reopen",
+   "Invariant checked in every distinct state of the DML exploration (which contains key updates to a constant, order-changing key updates, batch inserts, delete/insert cycles, nullable string keys) and again on the reopened state.",
+   "Trusted: the validity reference in spec.rs (three-valued; a stored null in a string column counts as the empty string).",
+   "DESIGN.md §4 C05"),
+ "C08": (E1, "model_checking",
+   "explicit-state BFS; saved bytes of every state x 3 close modes decoded by an independent decoder; exact string accounting",
+   "For every distinct state and each way of closing, the bytes are decoded by a decoder written from the format description: whole column-major rows, offset-binary integers, live string references, catalog = existing tables numbered 1..n, refcount(entry) = number of referring cells in all tables, unused entries empty, no live empty entry, decoded rows = model rows.",
+   "Trusted: dec.rs (independent decoder), cfb for the container layer, encoding_rs by label for text.",
+   "DESIGN.md §4 C08"),
 }
 PENDING_REASON = "check not built yet (work in progress; DESIGN.md names the planned engine)"
 
